@@ -6,7 +6,11 @@
   of this step (GrogModel/Build.lean), so they hold at every step of every build of every history.
 -/
 import GrogModel.Lemmas.BuildBasic
+import GrogModel.Lemmas.BuildForced
+import GrogModel.Lemmas.BuildFail
+import GrogModel.Props.C15
 set_option linter.unusedSectionVars false
+set_option linter.unusedVariables false
 set_option linter.unusedSimpArgs false
 namespace Grog.C14
 open Grog Grog.Exec
@@ -162,5 +166,140 @@ theorem old_gate_witness :
   · simp [checksPass]
   · refine ⟨?_, ⟨{ ok := true, key := some 0, oh := some (.self 0), loaded := true }, by simp, rfl⟩, by simp [checksPass]⟩
     simp [tryHit, restore, validate, writeOuts, checksPass, Fixes.current]
+
+
+/-! ## whole builds and histories
+
+  `success_post` is about one step from an arbitrary state. Below: a whole build (`Build.build`) from an **arbitrary
+  world** — any definitions, workspace and cache, in particular the world reached by any history (`Build.runHistory`) of
+  edits, taints, lost blobs and earlier builds with any flags: nothing is assumed about the cache. Mode `all`;
+  `load_outputs=minimal` through C15's lock step. -/
+section histories
+open Grog.Build
+
+/-- **success_post_build.** If a mode-`all` build over a well-formed order succeeds then for every selected target, in
+    the workspace the build leaves: every declared output exists and every output check passes; and in the state in which
+    the target was processed either its command ran and exited 0 (within its timeout) or a stored result whose outputs are
+    exactly the declared ones was restored. (`WF.checksOff`: check files are not declared outputs; commands are hermetic and
+    write exactly what they name, `Good`.) -/
+theorem success_post_build {P : Params κ} (hG : Good P) (hfx : P.fx.gateChecks = true) (cfg : Cfg) (hm : cfg.minimal = false)
+    (w : World κ) (order : List Lbl) (hwf : WF w.defs order) (hsucc : succeeded (build P cfg w order) order = true) :
+    ∀ l ∈ order, ∀ t, w.defs l = some t →
+      (∀ o ∈ t.outs, ((build P cfg w order).fs o.path).isSome = true) ∧ checksPass (build P cfg w order).fs t.checks = true ∧
+      ∃ s0 : BState κ, (∀ x ∈ (buildTarget P cfg w.defs (fuelFor order) t s0).log, x ∈ (build P cfg w order).log) ∧
+        (((P.run t.cmd (viewAt w.defs t s0.fs)).exit0 = true ∧ (buildTarget P cfg w.defs (fuelFor order) t s0).log = l :: s0.log) ∨
+         ((buildTarget P cfg w.defs (fuelFor order) t s0).log = s0.log ∧
+           ∃ k r, s0.cache.res k = some r ∧ r.outs.map (·.1) = t.outs)) := by
+  intro l hl t ht
+  obtain ⟨pre, suf, ho, _, hlsuf, hb⟩ := build_split P cfg w hwf.nodup l hl t ht
+  have hlab : t.label = l := hwf.label l t ht
+  have hsufo : ∀ l' ∈ suf, l' ∈ order := fun l' h => by rw [ho]; simp [h]
+  have hnd := hwf.nodup; rw [ho] at hnd
+  have hne : ∀ l' ∈ suf, l' ≠ l := fun l' h e => hlsuf (e ▸ h)
+  obtain ⟨ts, hts, hk⟩ := (succeeded_iff _ order).1 hsucc l hl
+  have hfr := run_frame P cfg w.defs (fuelFor order) hm hwf.label suf
+    (buildTarget P cfg w.defs (fuelFor order) t (run P cfg w.defs (fuelFor order) pre (start w)))
+  rw [hb, (hfr.1 l hlsuf).1, ← hlab] at hts
+  have hco : ChecksOffOutputs t := fun c hc => by
+    have := hwf.checksOff l hl t ht l hl t ht c hc
+    simpa [outPaths] using this
+  obtain ⟨h1, h2, h3⟩ := success_post P cfg w.defs (fuelFor order) t _ hm hfx hco _ rfl ts hts hk
+  have hoff : ∀ p, (∀ l' ∈ suf, ∀ t', w.defs l' = some t' → p ∉ outPaths t') →
+      (build P cfg w order).fs p = (buildTarget P cfg w.defs (fuelFor order) t (run P cfg w.defs (fuelFor order) pre (start w))).fs p := by
+    intro p hp
+    rw [hb]
+    exact run_fs_off hG hm w.defs (fuelFor order) suf _ (fun l' h t' ht' => (hwf.hdeps l' (hsufo l' h) t' ht').2.1) p hp
+  refine ⟨fun o ho' => ?_, ?_, run P cfg w.defs (fuelFor order) pre (start w), fun x hx => by rw [hb]; exact hfr.2 x hx, ?_⟩
+  · rw [hoff o.path (fun l' h t' ht' => ?_)]
+    · exact h1 o ho'
+    · exact fun hin => hwf.outsDisj l hl l' (hsufo l' h) (fun e => hne l' h e.symm) t t' ht ht' o.path
+        (by simp only [outPaths, List.mem_map]; exact ⟨o, ho', rfl⟩) hin
+  · rw [← h2]
+    apply checksPass_congr
+    intro c hc
+    exact hoff c.1 (fun l' h t' ht' => hwf.checksOff l hl t ht l' (hsufo l' h) t' ht' c hc)
+  · rcases h3 with ⟨hx, hlog⟩ | ⟨hlog, r, hr, hv⟩
+    · exact Or.inl ⟨hx, by rw [hlog, hlab]⟩
+    · exact Or.inr ⟨hlog, _, r, hr, hv⟩
+
+/-- **success_post_history.** The same after any history: the world a history of edits, taints, lost blobs and builds (any
+    flags, well-formed or not) leaves is just another world. -/
+theorem success_post_history {P : Params κ} (hG : Good P) (hfx : P.fx.gateChecks = true) (w : World κ) (h : List Step)
+    (cfg : Cfg) (hm : cfg.minimal = false) (order : List Lbl) (hwf : WF (runHistory P w h).defs order)
+    (hsucc : succeeded (build P cfg (runHistory P w h) order) order = true) :
+    ∀ l ∈ order, ∀ t, (runHistory P w h).defs l = some t →
+      (∀ o ∈ t.outs, ((build P cfg (runHistory P w h) order).fs o.path).isSome = true) ∧
+      checksPass (build P cfg (runHistory P w h) order).fs t.checks = true := by
+  intro l hl t ht
+  obtain ⟨h1, h2, _⟩ := success_post_build hG hfx cfg hm (runHistory P w h) order hwf hsucc l hl t ht
+  exact ⟨h1, h2⟩
+
+/-- **success_post_minimal.** Under `load_outputs=minimal`, for every lock-step history (C15: well-formed builds, no lost
+    blobs): the build succeeds iff the mode-`all` build of the `all` universe succeeds (whose postconditions are
+    `success_post_build`), and then every declared output of every selected target exists in the `all` universe and is,
+    in the `minimal` universe, either in the workspace with the same bytes or restorable from the cache (a stored result
+    naming exactly the declared outputs, with these bytes, all blobs present). -/
+theorem success_post_minimal {P : Params κ} (hG : Good P) (hgc : P.fx.gateChecks = true) (hfx : P.fx.minValidate = true)
+    (hro : P.fx.rerunOnce = true) (hlf : P.fx.loadFault = true) (outP : Path → Prop) (w : World κ) (h : List Step) (cfg : Cfg)
+    (order : List Lbl) (hcas : CasOK w.cache) (hH : HistOK outP w.defs h)
+    (hB : BuildOK outP (runHistory P w (forceMode false h)).defs order)
+    (hsucc : succeeded (build P (C15.withMode cfg true) (runHistory P w (forceMode true h)) order) order = true) :
+    succeeded (build P (C15.withMode cfg false) (runHistory P w (forceMode false h)) order) order = true ∧
+    ∀ l ∈ order, ∀ t, (runHistory P w (forceMode false h)).defs l = some t → ∀ o ∈ t.outs,
+      ∃ v, (build P (C15.withMode cfg false) (runHistory P w (forceMode false h)) order).fs o.path = some v ∧
+        ((build P (C15.withMode cfg true) (runHistory P w (forceMode true h)) order).fs o.path = some v ∨
+         ∃ k r, (build P (C15.withMode cfg true) (runHistory P w (forceMode true h)) order).cache.res k = some r ∧
+           r.outs.map (·.1) = t.outs ∧ (o, v) ∈ r.outs ∧
+           ∀ ov ∈ r.outs, (build P (C15.withMode cfg true) (runHistory P w (forceMode true h)) order).cache.cas ov.2 = true) := by
+  obtain ⟨hs, _, _, _⟩ := C15.same_verdict_and_execs_holds P hG hfx hro hlf outP w h cfg order hcas hH hB
+  have hsa : succeeded (build P (C15.withMode cfg false) (runHistory P w (forceMode false h)) order) order = true := by
+    rw [hs]; exact hsucc
+  refine ⟨hsa, ?_⟩
+  intro l hl t ht o ho
+  have hW0 : WRel outP w w := ⟨rfl, rfl, fun _ _ => rfl, hcas⟩
+  obtain ⟨hW, _⟩ := history_wrel hG hfx hro hlf h w w hW0 hH
+  obtain ⟨hR0, _⟩ := build_rel hG hfx hro hlf cfg hW hB
+  have hR : Rel P outP (runHistory P w (forceMode false h)).defs (build P (C15.withMode cfg false) (runHistory P w (forceMode false h)) order)
+      (build P (C15.withMode cfg true) (runHistory P w (forceMode true h)) order) order := hR0
+  obtain ⟨hex, _, _⟩ := success_post_build hG hgc (C15.withMode cfg false) rfl _ order hB.wf hsa l hl t ht
+  have hex' := hex o ho
+  cases hv : (build P (C15.withMode cfg false) (runHistory P w (forceMode false h)) order).fs o.path with
+  | none => rw [hv] at hex'; cases hex'
+  | some v =>
+    refine ⟨v, rfl, ?_⟩
+    obtain ⟨m, hm1, hm2⟩ := (succeeded_iff _ order).1 hsucc l hl
+    have hp : o.path ∈ outPaths t := by simp only [outPaths, List.mem_map]; exact ⟨o, ho, rfl⟩
+    cases hl' : m.loaded with
+    | true =>
+      left
+      have := hR.loaded l hl m hm1 hm2 hl' t ht o.path hp
+      rw [this]; exact hv
+    | false =>
+      right
+      obtain ⟨t', k, r, ht', _, hres, _, _, hmap, hblobs, hvals⟩ := hR.unloaded l hl m hm1 hm2 hl'
+      have : t' = t := by
+        have e : (runHistory P w (forceMode false h)).defs l = some t' := ht'
+        rw [ht] at e; exact (Option.some.inj e).symm
+      subst this
+      have hmem : ∃ ov ∈ r.outs, ov.1 = o := by
+        have : o ∈ r.outs.map (·.1) := by rw [hmap]; exact ho
+        obtain ⟨ov, h1, h2⟩ := List.mem_map.1 this
+        exact ⟨ov, h1, h2⟩
+      obtain ⟨ov, hov, he⟩ := hmem
+      have hval := hvals ov hov
+      rw [he, hv] at hval
+      have : ov = (o, v) := by
+        apply Prod.ext he
+        simpa using hval.symm
+      exact ⟨k, r, hres, hmap, by rw [← this]; exact hov, hblobs⟩
+
+/-- the hypotheses are satisfiable by a non-empty order (one target with an output; its build succeeds) -/
+example : ∃ (P : Params Nat) (w : World Nat) (order : List Lbl), order ≠ [] ∧ WF w.defs order ∧
+    succeeded (build P ⟨true, false⟩ w order) order = true := by
+  refine ⟨⟨fun _ => 0, fun c _ => ⟨true, c.writes.map (fun o => (o, [7])), []⟩, Fixes.current⟩,
+    { defs := C15.exDefs, fs := fun _ => none, cache := emptyCache }, [[1]], by simp, C15.exBuildOK.wf, ?_⟩
+  decide
+
+end histories
 
 end Grog.C14
